@@ -285,6 +285,13 @@ func runC02(c *Ctx) {
 	c02StopInitiator(c, a)
 	c02Goroutines(c, a)
 	c02Pump(c)
+	// "the attack ends cleanly" presupposes that what the dispatcher and the workers call comes back:
+	// a shipped pacer that panics takes the process down with hits in flight, a shipped targeter that
+	// returns with its mutex held blocks every later hit forever (the results channel is never closed).
+	// The rules that decide exactly that are C01's (no pacer method can panic) and C15's (the targeters'
+	// lock is released on every path); they are obligations of this property too.
+	runC01(c)
+	runC15(c)
 }
 
 func isCloseOf(i ssa.Instruction, cell ssa.Value) bool {
